@@ -233,6 +233,9 @@ func runAuth(r *prng.R, s *out.Sink, tier string) {
 		regDomain = append(regDomain, d)
 		p2id[tableKey(d, id.pemB)] = ids[i]
 	}
+	// one identity is registered under two domains (with different node numbers): what it signed for one of them must
+	// not attribute it under the other
+	p2id[tableKey("beta", reg[0].pemB)] = 900
 	stranger := ecdsaIdent(otherCA, "stranger")
 	rsaKey, _ := rsa.GenerateKey(rand.Reader, 2048)
 	rsaPEM := selfSigned("rsa", &rsaKey.PublicKey, rsaKey)
@@ -259,8 +262,9 @@ func runAuth(r *prng.R, s *out.Sink, tier string) {
 		what := "valid"
 		resign := true
 		var wire []byte // when set, sent instead of the encoding of h
-		mut := r.Intn(30)
-		if c < 30 {
+		signedDomain := ""       // when what == "signed-for-its-other-registered-domain": the domain the signature covers
+		mut := r.Intn(32)
+		if c < 32 {
 			mut = c
 		}
 		switch mut {
@@ -353,6 +357,17 @@ func runAuth(r *prng.R, s *out.Sink, tier string) {
 			what = "length-prefix-larger-than-data"
 		case 26:
 			what = "trailing-bytes-after-handshake"
+		case 27, 28:
+			// reg[0] is registered as ("", I) and as ("beta", I): signed for the one, presented under the other
+			who = 0
+			me = reg[0]
+			signer = me.sign
+			if mut == 27 {
+				signedDomain, h.Domain = "", "beta"
+			} else {
+				signedDomain, h.Domain = "beta", ""
+			}
+			what = "signed-for-its-other-registered-domain"
 		default:
 		}
 		if resign {
@@ -362,6 +377,12 @@ func runAuth(r *prng.R, s *out.Sink, tier string) {
 				if what == "signature-over-another-domain" {
 					h2 := h
 					h2.Domain = h.Domain + "x"
+					b2, _ := hsBytes(h2)
+					d = sha2(b2)
+				}
+				if what == "signed-for-its-other-registered-domain" {
+					h2 := h
+					h2.Domain = signedDomain
 					b2, _ := hsBytes(h2)
 					d = sha2(b2)
 				}
